@@ -7,6 +7,7 @@ import Mathlib.Data.Nat.Factorial.DoubleFactorial
 import Mathlib.Data.Nat.Choose.Basic
 import Mathlib.Data.Nat.Prime.Basic
 import Mathlib.Data.Nat.Bitwise
+import Mathlib.FieldTheory.Finite.Basic
 import Mathlib.Tactic.Ring
 import Mathlib.Tactic.Linarith
 import Mathlib.Tactic.LinearCombination
@@ -591,5 +592,192 @@ theorem mpz_lucnum2_ui_val (n : ℕ) :
     have hn : 1 ≤ n := by omega
     refine ⟨⟨2 * y + x, rfl, by rw [show 2 * y + x = x + 2 * y by ring]; exact l1⟩, fun h0 => by omega, fun _ => ?_⟩
     exact ⟨2 * x - y, rfl, (l2 hn).2⟩
+
+/-! ## Miller–Rabin never rejects a prime -/
+
+theorem powMod_eq (a n : ℕ) : ∀ e, powMod a e n = a ^ e % n := by
+  intro e
+  induction e using Nat.strong_induction_on with
+  | _ e ih =>
+    rw [powMod]
+    by_cases h0 : e = 0
+    · simp [h0]
+    · simp only [h0, dite_false]
+      have hr := ih (e / 2) (by omega)
+      rw [hr]
+      have hsq : a ^ (e / 2) % n * (a ^ (e / 2) % n) % n = a ^ (e / 2 + e / 2) % n := by
+        rw [← Nat.mul_mod, ← pow_add]
+      by_cases he : e % 2 = 0
+      · simp only [he, if_true]
+        rw [hsq]; congr 2; omega
+      · simp only [he, if_false]
+        rw [hsq, Nat.mod_mul_mod, ← pow_succ]; congr 2; omega
+
+theorem fermat_nat (p a : ℕ) (hp : p.Prime) (ha : ¬ p ∣ a) : a ^ (p - 1) % p = 1 := by
+  have hc : Nat.Coprime a p := ((Nat.Prime.coprime_iff_not_dvd hp).2 ha).symm
+  have := Nat.ModEq.pow_totient hc
+  rw [Nat.totient_prime hp] at this
+  unfold Nat.ModEq at this
+  rw [this]; exact Nat.mod_eq_of_lt hp.one_lt
+
+/-- in a prime field only ±1 square to 1 -/
+theorem sq_mod_prime_eq_one (p y : ℕ) (hp : p.Prime) (hy : y < p) (h : y * y % p = 1) : y = 1 ∨ y = p - 1 := by
+  have hy0 : y ≠ 0 := by rintro rfl; simp at h
+  have hdvd : p ∣ (y - 1) * (y + 1) := by
+    have e : (y - 1) * (y + 1) = y * y - 1 := by
+      obtain ⟨z, rfl⟩ : ∃ z, y = z + 1 := ⟨y - 1, by omega⟩
+      simp only [Nat.add_sub_cancel]; ring_nf; omega
+    rw [e]
+    have := Nat.div_add_mod (y * y) p
+    rw [h] at this
+    exact ⟨y * y / p, by omega⟩
+  rcases (Nat.Prime.dvd_mul hp).1 hdvd with h1 | h1
+  · left
+    rcases Nat.eq_zero_or_pos (y - 1) with h0 | hpos
+    · omega
+    · have := Nat.le_of_dvd hpos h1; omega
+  · right
+    have := Nat.le_of_dvd (by omega) h1; omega
+
+theorem pow_two_pow_succ_mod (y p c : ℕ) : (y * y % p) ^ 2 ^ (c + 1) % p = y ^ 2 ^ (c + 2) % p := by
+  rw [← Nat.pow_mod, ← pow_two, ← pow_mul]; congr 2; rw [pow_succ 2 (c + 1)]; ring
+
+/-- the squaring loop of `mill_rab` reaches n-1 before 1 when n is prime and y^(2^(c+1)) = 1, y ≠ ±1 -/
+theorem millRabLoop_true (p : ℕ) (hp : p.Prime) : ∀ c y, y < p → y ≠ 1 → y ≠ p - 1 →
+    y ^ 2 ^ (c + 1) % p = 1 → millRabLoop p c y = true := by
+  intro c
+  induction c with
+  | zero =>
+    intro y hy h1 h2 h
+    rw [show (2 : ℕ) ^ (0 + 1) = 2 by rfl, pow_two] at h
+    rcases sq_mod_prime_eq_one p y hp hy h with h | h <;> contradiction
+  | succ c ih =>
+    intro y hy h1 h2 h
+    rw [millRabLoop]
+    have hlt : y * y % p < p := Nat.mod_lt _ hp.pos
+    by_cases e1 : y * y % p = p - 1
+    · simp [e1]
+    · simp only [e1, if_false]
+      by_cases e2 : y * y % p = 1
+      · rcases sq_mod_prime_eq_one p y hp hy e2 with h | h <;> contradiction
+      · simp only [e2, if_false]
+        exact ih _ hlt e2 e1 (by rw [pow_two_pow_succ_mod]; exact h)
+
+theorem sprpLoop_true (p : ℕ) (hp : p.Prime) : ∀ c y, y < p → y ≠ 1 → y ≠ p - 1 →
+    y ^ 2 ^ (c + 1) % p = 1 → sprpLoop p c y = true := by
+  intro c
+  induction c with
+  | zero =>
+    intro y hy h1 h2 h
+    rw [show (2 : ℕ) ^ (0 + 1) = 2 by rfl, pow_two] at h
+    rcases sq_mod_prime_eq_one p y hp hy h with h | h <;> contradiction
+  | succ c ih =>
+    intro y hy h1 h2 h
+    rw [sprpLoop]
+    have hlt : y * y % p < p := Nat.mod_lt _ hp.pos
+    by_cases e1 : y * y % p = p - 1
+    · simp [e1]
+    · simp only [e1, if_false]
+      by_cases e2 : y * y % p = 1
+      · rcases sq_mod_prime_eq_one p y hp hy e2 with h | h <;> contradiction
+      · exact ih _ hlt e2 e1 (by rw [pow_two_pow_succ_mod]; exact h)
+
+/-- common core: for prime p with p - 1 = 2^k q and p ∤ a, y = a^q mod p is 1, or p-1, or its
+    (k-1)-fold squaring sequence satisfies the loop precondition -/
+theorem strong_core (p a q k : ℕ) (hp : p.Prime) (hqk : p - 1 = 2 ^ k * q) (ha : ¬ p ∣ a)
+    (h1 : a ^ q % p ≠ 1) (_h2 : a ^ q % p ≠ p - 1) : 1 ≤ k ∧ (a ^ q % p) ^ 2 ^ (k - 1 + 1) % p = 1 := by
+  have hf := fermat_nat p a hp ha
+  have hk : 1 ≤ k := by
+    rcases Nat.eq_zero_or_pos k with rfl | h
+    · simp only [pow_zero, one_mul] at hqk; rw [hqk] at hf; contradiction
+    · exact h
+  refine ⟨hk, ?_⟩
+  rw [show k - 1 + 1 = k by omega, ← Nat.pow_mod, ← pow_mul, mul_comm, ← hqk]; exact hf
+
+theorem mill_rab_prime (p : ℕ) (hp : p.Prime) (a q k : ℕ) (hqk : p - 1 = 2 ^ k * q) (ha : ¬ p ∣ a) :
+    mill_rab p a q k = true := by
+  unfold mill_rab
+  by_cases h : a ^ q % p = 1 ∨ a ^ q % p = p - 1
+  · simp [h]
+  · simp only [h, if_false]
+    rw [not_or] at h
+    obtain ⟨hk, hpow⟩ := strong_core p a q k hp hqk ha h.1 h.2
+    exact millRabLoop_true p hp (k - 1) _ (Nat.mod_lt _ hp.pos) h.1 h.2 hpow
+
+theorem twoAdic_spec : ∀ fuel m, m = 2 ^ (twoAdic fuel m).1 * (twoAdic fuel m).2 := by
+  intro fuel
+  induction fuel with
+  | zero => intro m; simp [twoAdic]
+  | succ fuel ih =>
+    intro m
+    rw [twoAdic]
+    by_cases h : m % 2 = 0 ∧ m ≠ 0
+    · simp only [h, and_self, if_true, ne_eq, not_false_eq_true]
+      have := ih (m / 2)
+      rw [pow_succ, mul_assoc, mul_comm 2, ← mul_assoc]
+      omega
+    · simp only [h, if_false]; simp
+
+theorem mill_rab_exec_eq (n x q k : ℕ) : mill_rab_exec n x q k = mill_rab n x q k := by
+  unfold mill_rab_exec mill_rab; rw [powMod_eq]
+
+theorem prime_gt_seven_not_dvd_210 (p : ℕ) (hp : p.Prime) (h : 7 < p) : ¬ p ∣ 210 := by
+  intro hd
+  rw [show (210 : ℕ) = 2 * (3 * (5 * 7)) by norm_num] at hd
+  rcases (Nat.Prime.dvd_mul hp).1 hd with h1 | h1
+  · have := Nat.le_of_dvd (by norm_num) h1; omega
+  rcases (Nat.Prime.dvd_mul hp).1 h1 with h1 | h1
+  · have := Nat.le_of_dvd (by norm_num) h1; omega
+  rcases (Nat.Prime.dvd_mul hp).1 h1 with h1 | h1
+  · have := Nat.le_of_dvd (by norm_num) h1; omega
+  · have := Nat.le_of_dvd (by norm_num) h1; omega
+
+theorem miller_rabin_with_prime (p : ℕ) (hp : p.Prime) (bases : List ℕ) (hb : ∀ x ∈ bases, ¬ p ∣ x) :
+    miller_rabin_with p bases = true := by
+  unfold miller_rabin_with
+  by_cases h7 : p ≤ 7
+  · simp only [h7, if_true]
+    have h2 := hp.two_le
+    interval_cases p <;> first | decide | (exfalso; revert hp; decide)
+  · simp only [h7, if_false]
+    have hf := fermat_nat p 210 hp (prime_gt_seven_not_dvd_210 p hp (by omega))
+    rw [powMod_eq]
+    simp only [hf, ne_eq, not_true_eq_false, if_false]
+    have hs := twoAdic_spec (p - 1) (p - 1)
+    rw [List.all_eq_true]
+    intro x hx
+    rw [mill_rab_exec_eq]
+    exact mill_rab_prime p hp x _ _ hs (hb x hx)
+
+theorem sprp_prime (p a : ℕ) (hp : p.Prime) (ha : ¬ p ∣ a) : sprp p a = true := by
+  unfold sprp
+  have hs := twoAdic_spec (p - 1) (p - 1)
+  generalize twoAdic (p - 1) (p - 1) = kq at hs
+  obtain ⟨k, q⟩ := kq
+  simp only at hs ⊢
+  rw [powMod_eq, ← Nat.pow_mod]
+  by_cases h : a ^ q % p = 1 ∨ a ^ q % p = p - 1
+  · rcases h with h | h <;> simp [h]
+  · rw [not_or] at h
+    obtain ⟨hk, hpow⟩ := strong_core p a q k hp hs ha h.1 h.2
+    simp [sprpLoop_true p hp (k - 1) _ (Nat.mod_lt _ hp.pos) h.1 h.2 hpow]
+
+/-- the spec oracle never calls a prime composite (so "isPrime n = false" is a proof of compositeness) -/
+theorem isPrime_of_prime (p : ℕ) (hp : p.Prime) : isPrime p = true := by
+  unfold isPrime
+  by_cases hs : p < 1048576
+  · simp only [hs, if_true]; exact (isPrimeTD_iff p).2 hp
+  · simp only [hs, if_false]
+    have hodd : ¬ p % 2 = 0 := by
+      intro h
+      have := (Nat.Prime.eq_one_or_self_of_dvd hp 2 (Nat.dvd_of_mod_eq_zero h))
+      omega
+    simp only [hodd, if_false]
+    rw [List.all_eq_true]
+    intro a _
+    by_cases ha : a % p = 0
+    · simp [ha]
+    · have : ¬ p ∣ a := fun hd => ha (Nat.mod_eq_zero_of_dvd hd)
+      simp [sprp_prime p a hp this]
 
 end Mpir.Numth
